@@ -407,6 +407,8 @@ def plan(tier, seed):
     sp = [{"mode": "exh", "maxlen": 2, "part": 0, "parts": 1, "timeout_s": 3600}]
     sp += [{"mode": "exh3", "first": list(range(i, n, 31)), "timeout_s": 7200} for i in range(31)]
     sp += [{"mode": "random", "n": 20000, "timeout_s": 7200} for _ in range(16)]
+    # the repository's own test-suite as a workload, every tm operation of the property's alphabet under the invariant contract
+    sp.append({"mode": "suite", "timeout_s": 3600})
     return sp
 
 
@@ -425,6 +427,12 @@ def seq_id(idx):
 
 
 def run_shard(spec, ctx):
+    if spec["mode"] == "suite":
+        from ..worker import import_target
+        from ..suite import run_under_monitors
+        import_target()
+        run_under_monitors(ctx, "C03", timeout_s=spec["timeout_s"] - 120)
+        return
     tm, fsr = _load()
     n = len(ATOMS)
     mode = spec["mode"]
@@ -481,6 +489,10 @@ def finalize(m, tier, results):
 
 
 def replay(case, ctx):
+    if "suite_test" in case:
+        from ..suite import run_under_monitors
+        run_under_monitors(ctx, "C03", select=[case["suite_test"].replace("tests/", "tests/", 1)])
+        return
     tm, fsr = _load()
     ctx.case(case, True)
     run_history(case["ops"], ctx, tm, fsr, check_every_step=True, init=case.get("init", INIT))
